@@ -1,6 +1,6 @@
 """C07 — fail-fast (Lift/LiftF) and try-and-continue (Try/TryF) error modes, for every failure pattern.
 Tie: H lock-step with the error channel as a second output; exhaustive failing subsets for short inputs."""
-import itertools, json
+import itertools, json, os, subprocess
 import vlib, lockstep as ls
 from checks import C07_openin as OI
 
@@ -154,6 +154,50 @@ def evaluate(script, tr):
     return vs
 
 
+def shared_morphism(ctx, binp):
+    """one Lift/Try/LiftF/TryF value handed to two or three stages one after another, failures in each of them
+    (go/harness/lockstep/sharedf_test.go); direct oracle only"""
+    rng = ctx.rng
+    lines = []
+    for _ in range(120 if ctx.thorough() else 24):
+        mode, stage, cap = rng.choice(["lift", "try"]), rng.choice(["Map", "FMap"]), rng.choice([0, 1, 3])
+        ins = []
+        for _ in range(rng.choice([2, 2, 3])):
+            xs = [rng.choice([7, 14, 21, 28]) if rng.random() < 0.3 else rng.randrange(1, 50) for _ in range(rng.randrange(1, 7))]
+            ins.append(" ".join(map(str, xs)))
+        lines.append("%s %s %d | %s" % (mode, stage, cap, " | ".join(ins)))
+    fin, fout = os.path.join(ctx.tmp, "sharedf.in"), os.path.join(ctx.tmp, "sharedf.out")
+    open(fin, "w").write("\n".join(lines) + "\n")
+    if os.path.exists(fout):
+        os.remove(fout)
+    env = dict(os.environ, SHAREDF_IN=fin, SHAREDF_OUT=fout)
+    try:
+        p = subprocess.run([binp, "-test.run", "TestSharedMorphism$", "-test.count=1", "-test.timeout=120s"], env=env, capture_output=True, text=True, timeout=180)
+        rc, txt = p.returncode, p.stdout[-2000:] + p.stderr[-3000:]
+    except subprocess.TimeoutExpired:
+        rc, txt = -1, "timeout"
+    done, started = {}, None
+    if os.path.exists(fout):
+        for l in open(fout).read().split("\n"):
+            if l.startswith("#"):
+                started = int(l[1:])
+            elif l:
+                i, _, r = l.partition(" ")
+                done[int(i)] = r
+    for i, r in sorted(done.items()):
+        ctx.count("sharedf " + lines[i], nontrivial=True)
+        ctx.hist("shared_morphism_value", lines[i].split()[0] + "/" + lines[i].split()[1])
+        if r != "ok":
+            ctx.violations.append(vlib.Violation("impl", "a morphism value (Lift/Try/LiftF/TryF) used by a second stage after an earlier stage met failures does not give the documented "
+                                                 "error behaviour: " + r, case="sharedf " + lines[i], expected="ok", got=r, key={"stage": lines[i].split()[1], "mode": lines[i].split()[0], "class": "shared-morphism"}))
+    if rc != 0:
+        if started is not None and started not in done:
+            ctx.violations.append(vlib.Violation("impl", "a morphism value used by several stages: the run crashed or hung: " + txt.strip()[-300:], case="sharedf " + lines[started],
+                                                 got=txt[-1500:], key={"stage": lines[started].split()[1], "mode": lines[started].split()[0], "class": "shared-morphism-crash"}))
+        else:
+            ctx.broken.append({"kind": "correspondence", "detail": "shared-morphism run failed: " + txt[-500:]})
+
+
 def run(ctx):
     ctx.cov["rule"] = ("script = Map/FMap under Lift/Try (LiftF/TryF) with a set of failing elements, capacities 0/1/3, sends+close interleaved with receives on the "
                        "value and the error channel in both orders, final drain; exhaustive failing subsets for inputs up to 3 (thorough: 5); non-trivial = at least one send and one failing element. "
@@ -196,5 +240,9 @@ def run(ctx):
             if tr is not None:
                 ctx.hist("error_kind", tr.cfg.get("ek", "plain"))
                 ctx.count(s2, nontrivial=True)
+    if not ctx.replay:
+        binp, err = ls.build(ctx)
+        if binp is not None:
+            shared_morphism(ctx, binp)
     from checks import C07x
     C07x.run_extra(ctx)
